@@ -168,17 +168,18 @@ Proof.
   pose proof (wf_owned_nodup _ _ W) as NDo.
   destruct (find_root_split x F _ (NoDup_roots _ (wf_nodup _ _ W)) Hx) as (F1 & F2 & HF & HF0).
   set (V := opt_list (rd_vstr dx)). set (K := old_key dx). set (C := owned_fl (flat csx)).
-  assert (Eo : owned F = owned (F1 ++ F2) ++ [] ++ [] \/ True) by (by right). clear Eo.
-  assert (Eo : owned F ≡ₚ (V ++ K) ++ (x :: C) ++ owned (F1 ++ F2)).
-  { rewrite HF. unfold owned. rewrite !flat_app, flat_cons, flat_t_unfold, !owned_fl_app, owned_fl_cons.
-    unfold owned_fn. cbn [fn_id fn_data fst snd]. rewrite owned_strs_split, Hrx. fold V K C.
-    rewrite (Permutation_app_comm (owned_fl (flat F1))). rewrite <- !app_assoc. cbn [app].
-    rewrite (Permutation_middle). rewrite <- !app_assoc. apply Permutation_app_head. apply Permutation_app_head.
-    rewrite <- Permutation_middle. apply Permutation_skip. apply Permutation_app_head. apply Permutation_app_comm. }
-  rewrite Eo in NDo. apply NoDup_app in NDo as (NVK & NVK_rest & Nrest).
-  apply NoDup_app in NVK as (_ & NV_K & _).
-  assert (Hin_owned : forall b', b' ∈ (V ++ K) ++ (x :: C) ++ owned (F1 ++ F2) -> b' <> h_next h).
+  set (A := owned F1). set (B := owned F2).
+  assert (Eo : owned F = A ++ ((x :: V ++ K) ++ C) ++ B).
+  { rewrite HF. unfold owned, A, B. rewrite !flat_app, flat_cons, flat_t_unfold, !owned_fl_app, owned_fl_cons.
+    unfold owned_fn. cbn [fn_id fn_data fst snd]. by rewrite owned_strs_split, Hrx. }
+  assert (E12 : owned (F1 ++ F2) = A ++ B) by (unfold owned; by rewrite flat_app, owned_fl_app).
+  rewrite Eo in NDo. apply NoDup_app in NDo as (_ & DA & Nrest).
+  apply NoDup_app in Nrest as (Nmid & DB & _). apply NoDup_app in Nmid as (NxVK & DC & _).
+  apply NoDup_cons in NxVK as [_ NVK]. apply NoDup_app in NVK as (_ & NV_K & _).
+  assert (Hin_owned : forall b', b' ∈ A ++ ((x :: V ++ K) ++ C) ++ B -> b' <> h_next h).
   { intros b' Hb' ->. rewrite <- Eo in Hb'. exact (Pos.lt_irrefl _ (wf_fresh _ _ W _ Hb')). }
+  assert (HKmid : forall b', b' ∈ K -> b' ∈ (x :: V ++ K) ++ C).
+  { intros b' Hb'. apply elem_of_app. left. right. apply elem_of_app. by right. }
   assert (HC : forall b', b' ∈ csx ≫= str_blocks -> b' ∈ C).
   { intros b' Hb'. apply elem_of_list_bind in Hb' as (c & Hbc & Hc). rewrite Forall_forall in Hoc.
     pose proof (str_blocks_owned c (Hoc c Hc) b' Hbc) as Hin. apply elem_of_owned_fl in Hin as (e & He & Hbe).
@@ -189,13 +190,15 @@ Proof.
   { intros b' Hb'. rewrite <- HF0. apply find_tree_Some in Hp as [Hn _].
     apply (owned_of_node _ _ Hn). by apply str_blocks_owned. }
   apply elem_of_app in Hb as [Hb|Hb]; [|apply elem_of_app in Hb as [Hb|Hb]].
+  - apply HP in Hb. rewrite E12 in Hb. split.
+    + apply Hin_owned. apply elem_of_app in Hb as [Hb|Hb]; apply elem_of_app; [by left|right]. apply elem_of_app. by right.
+    + intros HK. apply elem_of_app in Hb as [Hb|Hb].
+      * apply (DA b Hb). apply elem_of_app. left. by apply HKmid.
+      * by apply (DB b (HKmid b HK)).
   - split.
-    + apply Hin_owned. apply elem_of_app. right. apply elem_of_app. right. by apply HP.
-    + intros HK. apply (NVK_rest b); [apply elem_of_app; by right|]. apply elem_of_app. right. by apply HP.
-  - split.
-    + apply Hin_owned. apply elem_of_app. left. apply elem_of_app. by left.
+    + apply Hin_owned. apply elem_of_app. right. apply elem_of_app. left. apply elem_of_app. left. right. apply elem_of_app. by left.
     + by apply NV_K.
-  - split.
-    + apply Hin_owned. apply elem_of_app. right. apply elem_of_app. left. right. by apply HC.
-    + intros HK. apply (NVK_rest b); [apply elem_of_app; by right|]. apply elem_of_app. left. right. by apply HC.
+  - apply HC in Hb. split.
+    + apply Hin_owned. apply elem_of_app. right. apply elem_of_app. left. apply elem_of_app. by right.
+    + intros HK. apply (DC b); [|done]. right. apply elem_of_app. by right.
 Qed.
